@@ -108,7 +108,7 @@ def mutants(a):
             pids = [os.path.basename(patch).split("-")[0].upper()]
         scratch = tempfile.mkdtemp(prefix="verif-mut-")
         try:
-            shutil.copytree("/repo/src", os.path.join(scratch, "src"))
+            shutil.copytree(os.environ.get("VERIF_SRC") or "/repo/src", os.path.join(scratch, "src"))
             pr = subprocess.run(["patch", "-p1", "-s", "-d", scratch, "-i", patch],
                                 capture_output=True, text=True)
             if pr.returncode != 0:
